@@ -27,17 +27,23 @@ def rule_R10(chk, drv, request_member="_number_of_photons"):
     if len(region) == len(body):
         raise AnalysisBroken("%s: no main loop found after the set-up code" % drv["full"])
     budgets = {}
+    int_locals = set()
+
+    def mentions_request(e):
+        return e is not None and any(C.member_name(x) == request_member for x in C.walk(e))
     for st in region:
         for x in C.walk_stmt(st):
-            if x.get("k") == "Bin" and x.get("op") == "=" and C.member_name(x["b"]) == request_member:
+            if x.get("k") == "Bin" and x.get("op") == "=" and mentions_request(x["b"]):
                 a = C.strip_casts(x["a"])
-                if a.get("k") == "Ref" and "id" in a:
+                if a.get("k") == "Ref" and "id" in a and "const" not in (a.get("t") or ""):
                     budgets[a["id"]] = a["n"]
             if x.get("k") == "Decl":
                 for d in x["d"]:
-                    if d.get("init") is not None and C.member_name(d["init"]) == request_member and \
-                            any(t in (d.get("t") or "") for t in INT_OK) and "const" not in (d.get("t") or ""):
-                        budgets[d["id"]] = d["n"]
+                    t = d.get("t") or ""
+                    if any(tt in t for tt in INT_OK) and "*" not in t and "<" not in t:
+                        int_locals.add(d["id"])
+                        if d.get("init") is not None and mentions_request(d["init"]) and "const" not in t:
+                            budgets[d["id"]] = d["n"]
     if len(budgets) < 2:
         raise AnalysisBroken("%s: fewer than two packet budgets are taken from %s" % (drv["full"], request_member))
 
@@ -49,6 +55,11 @@ def rule_R10(chk, drv, request_member="_number_of_photons"):
 
     def value(e, env):
         e0 = C.strip_casts(e)
+        if e0.get("k") == "Cond":
+            t_ = truth(e0["c"], env)
+            if t_ is not None:
+                return value(e0["a"] if t_ else e0["b"], env)
+            return sp.Piecewise((value(e0["a"], env), sp.Symbol("cond_%s" % e0.get("l"))), (value(e0["b"], env), True))
         if e0.get("k") == "Bin" and e0["op"] in (">>", "<<") and C.const_int(e0["b"]) is not None:
             v = value(e0["a"], env)
             c = C.const_int(e0["b"])
@@ -94,6 +105,8 @@ def rule_R10(chk, drv, request_member="_number_of_photons"):
             if d.is_nonnegative and e0["op"] == ">=":
                 return True
             return None
+        if k == "Ref" and env.vals.get(("l", e0.get("id"))) in (sp.true, sp.false):
+            return env.vals[("l", e0["id"])] == sp.true
         if k == "Ref" and e0.get("id") in budgets:
             v = env.vals.get(("l", e0["id"]))
             if v is not None and v.is_positive:
@@ -110,13 +123,30 @@ def rule_R10(chk, drv, request_member="_number_of_photons"):
                 if st.get("mac"):
                     continue
                 return run(st["s"] + stmts[i + 1:], env, conds)
+            if k == "Decl" and len(st["d"]) == 1 and (st["d"][0].get("t") or "").replace("const ", "").strip() == "bool" and \
+                    st["d"][0].get("init") is not None and C.strip_casts(st["d"][0]["init"]).get("k") != "Bool" and \
+                    any(x.get("k") == "Ref" and x.get("id") == st["d"][0]["id"] for s2 in stmts[i + 1:] for x in C.walk_stmt(s2)):
+                # a flag computed from the configuration: both values, as a condition of the path
+                d = st["d"][0]
+                t0 = truth(d["init"], env)
+                for val in (True, False):
+                    if t0 is not None and t0 != val:
+                        continue
+                    e2 = env.copy()
+                    e2.vals[("l", d["id"])] = sp.true if val else sp.false
+                    run(stmts[i + 1:], e2, conds + [("" if val else "not ") + d["n"]])
+                return
             if k == "Decl":
                 for d in st["d"]:
-                    if d["id"] in budgets:
-                        env.vals[("l", d["id"])] = value(d["init"], env) if d.get("init") is not None else sp.Integer(0)
+                    if d["id"] in budgets or d["id"] in int_locals:
+                        try:
+                            env.vals[("l", d["id"])] = value(d["init"], env) if d.get("init") is not None else sp.Integer(0)
+                        except AnalysisBroken:
+                            if d["id"] in budgets:
+                                raise
             elif k == "Bin" and st.get("op", "").endswith("=") and st["op"] not in ("==", "!=", "<=", ">="):
                 a = C.strip_casts(st["a"])
-                if a.get("k") == "Ref" and a.get("id") in budgets:
+                if a.get("k") == "Ref" and (a.get("id") in budgets or a.get("id") in int_locals):
                     key = ("l", a["id"])
                     old = env.vals.get(key, sp.Integer(0))
                     op = st["op"]
